@@ -51,6 +51,13 @@ func opOf(name string) (treefs.Op, bool) {
 		return treefs.Op{Kind: "ReadDir", P: "d"}, true
 	case "copy-f-h":
 		return treefs.Op{Kind: "CopyFile", P: "d/f", Q: "d/h"}, true
+	case "write-over-d":
+		// (refused when d is a directory; the refusal must leave nothing locked)
+		return treefs.Op{Kind: "WriteFile", P: "d", Data: "dd"}, true
+	case "write-t":
+		return treefs.Op{Kind: "WriteFile", P: "t", Data: "tt"}, true
+	case "stream-write-t2":
+		return treefs.Op{Kind: "Writer", P: "t2", Chunks: []string{"t2"}}, true
 	case "gcopy-f-h":
 		return treefs.Op{Kind: "Copy", P: "d/f", Q: "d/h"}, true
 	case "write-n-a":
@@ -467,6 +474,9 @@ func programs(thorough bool) []Spec {
 			Spec{init, [][]string{{"write-f-held-while-write-n"}, {"copy-f-h"}}, b2},
 			Spec{init, [][]string{{"write-f-held-while-write-n"}, {"gcopy-f-h"}}, b2},
 			Spec{init, [][]string{{"write-f-held-while-write-n"}, {"read-f"}}, b2},
+			// a refused operation followed by / racing with successful ones in the same directory
+			Spec{init, [][]string{{"write-over-d", "write-t"}, {"stream-write-t2"}}, b2},
+			Spec{init, [][]string{{"write-over-d"}, {"write-t"}, {"mkdir-e"}}, b3},
 		)
 	}
 	// several nodes in one directory: operations on DISTINCT names of a shared directory
@@ -532,7 +542,7 @@ func replay(wj json.RawMessage) (*fw.Violation, error) {
 
 func init() {
 	fw.Register(&fw.Check{ID: "C09", Level: "model_checking",
-		Rule: "programs = initial tree {empty, {d/f}} x (and, with three files d/f, d/g, d/h in one directory, all pairs of 8 operations on distinct names plus 4 larger programs) x (all unordered pairs of 12 single operations on a shared directory d and file d/f: WriteFile x2, ReadFile, writer and reader streams held open across a scheduling point, MkdirAll, nested write, Remove, RemoveAll, ReadDir, CopyFile, new-node write; 8 three-thread programs; 4 two-operation programs; 8 programs holding a reader or a writer open across another operation of the same thread, against stream writes, plain writes, reads and copies of that file into the same directory); every schedule of the real memfs with <= bound preemptions (pairs 3/8, triples 2/4, 2x2 3/5 for quick/thorough); oracle: the call/return history plus the final tree must be linearizable w.r.t. the tree model (porcupine), structural sanity of the final tree, no panic, no deadlock, race oracle on memfs fields. states = distinct schedule traces",
+		Rule: "programs = initial tree {empty, {d/f}} x (and, with three files d/f, d/g, d/h in one directory, all pairs of 8 operations on distinct names plus 4 larger programs) x (all unordered pairs of 12 single operations on a shared directory d and file d/f: WriteFile x2, ReadFile, writer and reader streams held open across a scheduling point, MkdirAll, nested write, Remove, RemoveAll, ReadDir, CopyFile, new-node write; 8 three-thread programs; 4 two-operation programs; 8 programs holding a reader or a writer open across another operation of the same thread, against stream writes, plain writes, reads and copies of that file into the same directory; 2 programs in which a refused write (onto a directory) is followed by and races with successful writes in the same directory); every schedule of the real memfs with <= bound preemptions (pairs 3/8, triples 2/4, 2x2 3/5 for quick/thorough); oracle: the call/return history plus the final tree must be linearizable w.r.t. the tree model (porcupine), structural sanity of the final tree, no panic, no deadlock, race oracle on memfs fields. states = distinct schedule traces",
 		Run: run, Replay: replay,
 		Assumptions: []string{"linearizability against the tree model is used as the meaning of 'takes effect and is visible afterwards'; a stream counts as one operation from open to close", "2-3 threads; bounds as reported; word-sized fields outside the race oracle"}})
 }
